@@ -26,6 +26,7 @@ is stored twice.
 import json
 import os
 import threading
+import time
 from fractions import Fraction
 
 from common import zlit, blit, llit, olit, VERIF
@@ -213,28 +214,55 @@ def decode(img):
     return rows
 
 
+def tkey():
+    t = threading.current_thread()
+    return (t.name, t.ident)
+
+
 class Upstream:
+    """The upstream source.  rendezvous=(P, n): a source that looks at the query late - a call of get_map waits (bounded)
+    until the other creators that run in parallel (groups of P of the n expected requests) are inside get_map as
+    well and reads bbox and size of the query it was handed only then (schedule control at a legitimate hook)."""
     coverage = None
     extent = None
     res_range = None
 
-    def __init__(self, picture, events, lock, opts, supports_meta=True, as_buffer=False):
+    def __init__(self, picture, events, lock, opts, supports_meta=True, as_buffer=False, rendezvous=None):
         self.picture, self.events, self.lock, self.opts = picture, events, lock, opts
         self.supports_meta_tiles = supports_meta
         self.as_buffer = as_buffer
+        self.rendezvous = rendezvous
+        self.cv = threading.Condition()
+        self.arrived = 0
+        self.timeouts = 0
 
     def get_map(self, query):
         from mapproxy.image import ImageSource
+        if self.rendezvous:
+            par, total = self.rendezvous
+            with self.cv:
+                i = self.arrived
+                self.arrived += 1
+                target = min((i // par + 1) * par, total)
+                self.cv.notify_all()
+                deadline = time.time() + 0.4
+                while self.arrived < target:
+                    left = deadline - time.time()
+                    if left <= 0:
+                        self.timeouts += 1
+                        break
+                    self.cv.wait(left)
+        bbox, size = tuple(query.bbox), tuple(query.size)
         with self.lock:
-            self.events.append(('req', threading.get_ident(), tuple(query.bbox), tuple(query.size)))
-        img = self.picture.render(query.bbox, query.size)
+            self.events.append(('req', tkey(), bbox, size))
+        img = self.picture.render(bbox, size)
         if self.as_buffer:
             from io import BytesIO
             b = BytesIO()
             img.save(b, 'PNG')
             b.seek(0)
-            return ImageSource(b, size=tuple(query.size), image_opts=self.opts)
-        return ImageSource(img, size=tuple(query.size), image_opts=self.opts)
+            return ImageSource(b, size=size, image_opts=self.opts)
+        return ImageSource(img, size=size, image_opts=self.opts)
 
 
 class RecordingCache:
@@ -277,7 +305,7 @@ class RecordingCache:
             img = t.source.as_image().copy()
             rec.append((tuple(t.coord), img))
         with self.lock:
-            self.events.append(('store', threading.get_ident(), rec))
+            self.events.append(('store', tkey(), rec))
             for coord, img in rec:
                 self.stored[coord] = (img, None)
 
@@ -293,7 +321,7 @@ class RecordingCache:
         pass
 
 
-def run_manager(gc, picture, cfg, coords, cache=None):
+def run_manager(gc, picture, cfg, coords, cache=None, rendezvous=None):
     """Run a real TileManager.  cfg: meta_size, meta_buffer, minimize, bulk, concurrent, as_buffer.
     Returns (steps, result sources, error) where steps = [(requests, [(coord, image)])] in canonical order."""
     from mapproxy.cache.tile import TileManager
@@ -305,7 +333,7 @@ def run_manager(gc, picture, cfg, coords, cache=None):
         opts = ImageOptions(transparent=False, format='image/png', mode='RGB')
     events, lock = [], threading.Lock()
     bulk = cfg['bulk']
-    src = Upstream(picture, events, lock, opts, supports_meta=not bulk, as_buffer=cfg.get('as_buffer', False))
+    src = Upstream(picture, events, lock, opts, supports_meta=not bulk, as_buffer=cfg.get('as_buffer', False), rendezvous=rendezvous)
     if cache is None:
         cache = RecordingCache(events, lock)
     else:
@@ -356,6 +384,126 @@ def run_manager(gc, picture, cfg, coords, cache=None):
     return steps, served, has_meta, None
 
 
+def gated_grid(spec):
+    """The same grid built through a TileGrid subclass whose tile_bbox() passes a gate first (schedule control:
+    tile_bbox is the only call MetaGrid.meta_tile makes outside its own class)."""
+    from mapproxy.grid import TileGrid
+    from mapproxy.srs import SRS
+
+    class GatedTileGrid(TileGrid):
+        gate = None
+
+        def tile_bbox(self, tile_coord, limit=False):
+            g = self.gate
+            if g is not None:
+                g()
+            return TileGrid.tile_bbox(self, tile_coord, limit)
+
+    return GatedTileGrid(SRS(3857), bbox=tuple(float(v) for v in spec['bbox']), tile_size=tuple(spec['tile_size']),
+                         res=[float(r) for r in spec['res']], origin=spec['origin'])
+
+
+def run_two_requests(gc, picture, cfg, pre, coords1, coords2, post):
+    """ONE TileManager (one MetaGrid, one cache) used by two request threads.  Schedule: request 0 (pre) completes;
+    request 1 is held at its first grid.tile_bbox call (inside MetaGrid.meta_tile, after it has looked for its tiles
+    in the cache) until request 2 has been answered completely; then request 1 continues; finally `post` (a list
+    of (removed tiles, requested tiles)) runs sequentially.  Returns a list of per-request observations
+    (coords, steps, served, cached when looking, cached under the lock) or an error string."""
+    from mapproxy.cache.tile import TileManager
+    from mapproxy.cache.dummy import DummyLocker
+    from mapproxy.image.opts import ImageOptions
+    if picture.transparent:
+        opts = ImageOptions(transparent=True, format='image/png', mode='RGBA')
+    else:
+        opts = ImageOptions(transparent=False, format='image/png', mode='RGB')
+    events, lock = [], threading.Lock()
+    src = Upstream(picture, events, lock, opts, supports_meta=True, as_buffer=cfg.get('as_buffer', False))
+    cache = RecordingCache(events, lock)
+    grid = gated_grid(gc.spec)
+    out = []
+    try:
+        tm = TileManager(grid, cache, [src], 'png', DummyLocker(), image_opts=opts,
+                         meta_size=cfg['meta_size'], meta_buffer=cfg['meta_buffer'],
+                         minimize_meta_requests=cfg['minimize'], bulk_meta_tiles=False, concurrent_tile_creators=1)
+        has_meta = tm.meta_grid is not None
+
+        def request(coords, res):
+            try:
+                result = tm.load_tile_coords([tuple(c) for c in coords])
+                res['served'] = [(t.coord, None if t.source is None else t.source.as_image().copy()) for t in result]
+            except Exception as e:  # noqa
+                res['error'] = '%s: %s' % (type(e).__name__, e)
+            res['tid'] = tkey()
+
+        def steps_of(tid, lo, hi=None):
+            steps, pend = [], []
+            for ev in events[lo:hi]:
+                if ev[1] != tid:
+                    continue
+                if ev[0] == 'req':
+                    pend.append((ev[2], ev[3]))
+                else:
+                    steps.append((pend, ev[2]))
+                    pend = []
+            if pend:
+                steps.append((pend, []))
+            return steps
+
+        # request 0
+        r0 = {}
+        before = sorted(cache.stored)
+        request(pre, r0)
+        if 'error' in r0:
+            return r0['error']
+        out.append((pre, steps_of(r0['tid'], 0), r0['served'], before, before))
+        mark = len(events)
+        cached_a = sorted(cache.stored)
+        # requests 1 and 2
+        inside, released = threading.Event(), threading.Event()
+        r1, r2 = {}, {}
+        t1 = threading.Thread(target=request, args=(coords1, r1), daemon=True, name='c04-request1')
+        state = {'held': False}
+
+        def gate():
+            if threading.current_thread() is t1 and not state['held']:
+                state['held'] = True
+                inside.set()
+                released.wait(3)
+        grid.gate = gate
+        t1.start()
+        deadline = time.time() + 2
+        while not inside.is_set() and t1.is_alive() and time.time() < deadline:
+            inside.wait(0.005)
+        t2 = threading.Thread(target=request, args=(coords2, r2), daemon=True, name='c04-request2')
+        t2.start()
+        t2.join(3)
+        cached_b = sorted(cache.stored)
+        released.set()
+        t1.join(3)
+        grid.gate = None
+        if t1.is_alive() or t2.is_alive():
+            return 'request thread did not finish'
+        for r in (r1, r2):
+            if 'error' in r:
+                return r['error']
+        out.append((coords2, steps_of(r2['tid'], mark), r2['served'], cached_a, cached_a))
+        out.append((coords1, steps_of(r1['tid'], mark), r1['served'], cached_a, cached_b if state['held'] else cached_a))
+        # sequential tail
+        for removed, coords in post:
+            for c in removed:
+                cache.stored.pop(tuple(c), None)
+            mark = len(events)
+            before = sorted(cache.stored)
+            r = {}
+            request(coords, r)
+            if 'error' in r:
+                return r['error']
+            out.append((coords, steps_of(r['tid'], mark), r['served'], before, before))
+    except Exception as e:  # noqa
+        return '%s: %s' % (type(e).__name__, e)
+    return has_meta, out
+
+
 # ----------------------------------------------------------------------------- oracle
 
 def centred(d):
@@ -376,7 +524,7 @@ def block_of(gc, cfg, coords, level, coord, has_meta):
     return (x0, x0 + sx - 1), (y0, y0 + sy - 1)
 
 
-def oracle(ctx, gc, picture, cfg, coords, level, steps, served, has_meta, reference, rep, cached=()):
+def oracle(ctx, gc, picture, cfg, coords, level, steps, served, has_meta, reference, rep, cached=(), locked=()):
     """cached: coordinates the cache held when the request started (histories); only the others are created."""
     q = picture.q
     r = gc.res[level]
@@ -395,7 +543,7 @@ def oracle(ctx, gc, picture, cfg, coords, level, steps, served, has_meta, refere
     if dup:
         ctx.fail('tile-stored-twice', 'a tile is stored by two upstream requests', rep)
     # every requested tile is produced
-    missing = [c for c in uncached if c not in stored_at]
+    missing = [c for c in uncached if c not in stored_at and c not in locked]
     served_missing = [c for c, img in served if c is not None and img is None]
     if missing or served_missing:
         sig = 'requested-tile-not-produced'
@@ -547,7 +695,7 @@ def run(ctx):
 
     ref_cache = {}
 
-    def e2e(gc, cfg, coords, level, tag, kind='cells', cache=None, history=None):
+    def e2e(gc, cfg, coords, level, tag, kind='cells', cache=None, history=None, observed=None, cached_override=None, locked=None):
         """one request through a real TileManager; cache: a RecordingCache that already holds tiles (histories)."""
         if kind == 'cells':
             q = int(min(gc.res) * gc.S) // 10
@@ -555,12 +703,35 @@ def run(ctx):
             q = int(gc.res[level] * gc.S)        # one cell per pixel: the <= 1 px rule is a 3x3 neighbourhood
         picture = Picture(gc, q, kind)
         cached = sorted(c for c in (cache.stored if cache is not None else {}) if c[2] == level)
+        if cached_override is not None:
+            cached = sorted(c for c in cached_override if c[2] == level)
+        locked_l = cached if locked is None else sorted(c for c in locked if c[2] == level)
         rep = {'grid': gc.spec, 'config': cfg, 'level': level, 'tiles': [list(c) if c is not None else None for c in coords],
                'picture': kind}
         if history is not None:
             rep['history'] = history
             rep['cached_before'] = cached
-        steps, served, has_meta, err = run_manager(gc, picture, cfg, coords, cache=cache)
+        # creators that run in parallel meet inside the source before it reads its query (schedule control)
+        rendezvous = None
+        if cfg['concurrent'] > 1 and not cfg['bulk']:
+            unc0 = []
+            for c in coords:
+                if c is not None and tuple(c) not in set(cached) and tuple(c) not in unc0:
+                    unc0.append(tuple(c))
+            meta_expected = bool(cfg['meta_buffer']) or cfg['meta_size'] not in (None, [1, 1])
+            if not meta_expected:
+                n_req = len(unc0)
+            elif cfg['minimize'] and len(unc0) > 1:
+                n_req = 1
+            else:
+                n_req = len({block_of(gc, cfg, unc0, level, c, True) for c in unc0})
+            if n_req >= 2:
+                rendezvous = (min(cfg['concurrent'], n_req), n_req)
+                ctx.count('e2e:creators_meet_in_source')
+        if observed is not None:
+            steps, served, has_meta, err = observed
+        else:
+            steps, served, has_meta, err = run_manager(gc, picture, cfg, coords, cache=cache, rendezvous=rendezvous)
         mode = 'single' if (steps is not None and not has_meta) else 'minimize' if cfg['minimize'] else 'bulk' if cfg['bulk'] else 'meta'
         ctx.count('e2e:' + mode)
         ctx.count('e2e:picture=' + kind)
@@ -600,7 +771,7 @@ def run(ctx):
                         if any(picture.mismatch(got[k][j], cells[k][j], 0) for k in range(gc.th) for j in range(gc.tw)):
                             ctx.fail('single-tile-colour', 'tile %r fetched alone does not show the upstream picture' % (coord,), rep)
 
-        oracle(ctx, gc, picture, cfg, coords, level, steps, served, has_meta, reference, rep, cached=set(cached))
+        oracle(ctx, gc, picture, cfg, coords, level, steps, served, has_meta, reference, rep, cached=set(cached), locked=set(locked_l))
         # correspondence: plan
         valid = [tuple(c) for c in coords if c is not None]
         uncached = [c for c in valid if c not in set(cached)]
@@ -609,8 +780,8 @@ def run(ctx):
         ms = cfg['meta_size'] or [1, 1]
         mbuf = 0 if (cfg['bulk'] or not has_meta) else (cfg['meta_buffer'] or 0)
         mgl = mg_lit(gc, ms, mbuf)
-        add('plan', '(%s, %s, %s, %s, %s, %s, Some %s)' % (mgl, blit(has_meta), blit(cfg['minimize']), blit(cfg['bulk'] and has_meta),
-                                                          llit(cached, coord_lit), llit(valid, coord_lit), obs_plan),
+        add('plan', '(%s, %s, %s, %s, %s, %s, %s, Some %s)' % (mgl, blit(has_meta), blit(cfg['minimize']), blit(cfg['bulk'] and has_meta),
+                                                              llit(cached, coord_lit), llit(locked_l, coord_lit), llit(valid, coord_lit), obs_plan),
             dict(rep, observed_steps=[{'requests': s[0], 'stored': [c for c, _ in s[1]]} for s in steps]))
         # correspondence: sampled pixels of stored tiles
         if not has_meta or cfg['bulk']:
@@ -636,6 +807,46 @@ def run(ctx):
                         add('colour', '(%s, %d, %s, %s, %s, %d, %d, Some (%d, %d, %d, %d))' % (
                             (mgl, q, how, blit(picture.transparent), coord_lit(coord), j, k) + tuple(v)),
                             dict(rep, tile=coord, pixel=(j, k), rgba=v))
+
+    def run_concurrent(gc, level, kind, spec=None):
+        """two request threads on one TileManager with a forced interleaving (see run_two_requests)."""
+        if spec is None:
+            cfg = gen_cfg(rng, gc)
+            cfg['bulk'] = False
+            cfg['concurrent'] = 1
+            if cfg['meta_size'] == [1, 1] and not cfg['meta_buffer']:
+                cfg['meta_size'] = [2, 2]
+            pre = pick_tiles(rng, gc, level, 'one')
+            coords1 = pick_tiles(rng, gc, level, rng.choice(['one', 'block']))
+            same = rng.random() < 0.6
+            if same:
+                # another (or the same) tile of the first meta tile of request 1
+                (bx0, bx1), (by0, by1) = block_of(gc, dict(cfg, minimize=False), coords1, level, coords1[0], True)
+                nx, ny = gc.grid_size(level)
+                cand = [(x, y, level) for x in range(bx0, bx1 + 1) for y in range(by0, by1 + 1) if 0 <= x < nx and 0 <= y < ny]
+                coords2 = [rng.choice(cand)]
+            else:
+                coords2 = pick_tiles(rng, gc, level, 'one')
+            spec = {'config': cfg, 'pre': pre, 'request1': coords1, 'request2': coords2}
+        cfg = spec['config']
+        pre, coords1, coords2 = [[tuple(c) for c in spec[k]] for k in ('pre', 'request1', 'request2')]
+        q = int(min(gc.res) * gc.S) // 10 if kind == 'cells' else int(gc.res[level] * gc.S)
+        picture = Picture(gc, q, kind)
+        # afterwards: remove the tile request 2 asked for and ask for it again
+        post = [([coords2[0]], [coords2[0]])]
+        res = run_two_requests(gc, picture, cfg, pre, coords1, coords2, post)
+        sched = {'schedule': 'request1 held inside MetaGrid.meta_tile (first grid.tile_bbox call) while request2 runs',
+                 'pre': pre, 'request1': coords1, 'request2': coords2, 'then': 'remove %r, request it again' % (coords2[0],)}
+        ctx.count('concurrent_requests')
+        if isinstance(res, str):
+            ctx.fail('tile-manager-raises', 'two concurrent requests: %s' % res,
+                     {'grid': gc.spec, 'config': cfg, 'level': level, 'concurrent_requests': sched})
+            return
+        has_meta, obs = res
+        names = ['request0', 'request2', 'request1', 'request3']
+        for name, (coords, steps, served, cached_a, cached_b) in zip(names, obs):
+            e2e(gc, cfg, coords, level, 'concurrent', kind=kind, history=dict(sched, this=name),
+                observed=(steps, served, has_meta, None), cached_override=cached_a, locked=cached_b)
 
     def run_history(gc, level, kind):
         """several requests (configuration may change in between) and removals of single tiles on ONE cache:
@@ -669,7 +880,9 @@ def run(ctx):
     # ---- corpus first
     for item in load_corpus():
         gc = new_grid(item['grid'])
-        if 'history' in item:
+        if 'concurrent_requests' in item:
+            run_concurrent(gc, item['level'], item.get('picture', 'cells'), spec=item['concurrent_requests'])
+        elif 'history' in item:
             cache = RecordingCache([], threading.Lock())
             done = []
             for op in item['history']:
@@ -752,6 +965,8 @@ def run(ctx):
             e2e(gc, cfg, coords, level, 'random', kind=rng.choice(['cells', 'cells', 'rgba', 'rgba', 'rgb']))
         for _ in range(ctx.n(2, 6) if e2e_levels else 0):
             run_history(gc, rng.choice(e2e_levels), rng.choice(['cells', 'cells', 'rgba', 'rgb']))
+        for _ in range(ctx.n(2, 5) if e2e_levels else 0):
+            run_concurrent(gc, rng.choice(e2e_levels), rng.choice(['cells', 'cells', 'rgba']))
 
     dtext = '\n'.join(defs)
     I = 'Grid MetaGrid'
@@ -765,9 +980,9 @@ def run(ctx):
     ctx.corr_check('minimal_meta_tile', I, 'mgrid * list coord * option metatile', T['minimal'][0],
                    "fun c => let '(m, tiles, obs) := c in ometatile_eqb (minimal_meta_tile m tiles) obs",
                    lambda i: T['minimal'][1][i], defs=dtext, shard=250)
-    ctx.corr_check('create_plan', I, 'mgrid * bool * bool * bool * list coord * list coord * option (list step)', T['plan'][0],
-                   "fun c => let '(m, has_meta, minimize, bulk, cached, tiles, obs) := c in "
-                   "plan_eqb (plan_with_cache m has_meta minimize bulk cached tiles) obs",
+    ctx.corr_check('create_plan', I, 'mgrid * bool * bool * bool * list coord * list coord * list coord * option (list step)', T['plan'][0],
+                   "fun c => let '(m, has_meta, minimize, bulk, cached, locked, tiles, obs) := c in "
+                   "plan_eqb (plan_with_caches m has_meta minimize bulk cached locked tiles) obs",
                    lambda i: T['plan'][1][i], defs=dtext, shard=200)
     ctx.corr_check('stored_pixel', I, 'mgrid * Z * how * coord * Z * Z * option (option (Z * Z))', T['pixel'][0],
                    "fun c => let '(m, q, h, t, j, k, obs) := c in oopix_eqb (model_pixel m q h t j k) obs",
